@@ -16,10 +16,10 @@ package main
 
 import (
 	"fmt"
-	"reflect"
 	"go/ast"
 	"go/token"
 	"go/types"
+	"reflect"
 )
 
 func (in *inliner) isMinMax(call *ast.CallExpr) string {
@@ -103,6 +103,89 @@ func (in *inliner) noCalls(e ast.Expr) bool {
 	return ok
 }
 
+// pureCandidate: the call is a single-result call of an inlining candidate whose body cannot have side
+// effects: it assigns only to its own locals (named results included), increments only those, calls
+// nothing but builtins without effects / conversions / min / max, and takes no addresses.
+func (in *inliner) pureCandidate(call *ast.CallExpr) *ast.FuncDecl {
+	info := in.pkg.TypesInfo
+	var fn *types.Func
+	switch f := call.Fun.(type) {
+	case *ast.Ident:
+		fn, _ = info.Uses[f].(*types.Func)
+	case *ast.SelectorExpr:
+		fn, _ = info.Uses[f.Sel].(*types.Func)
+	}
+	if fn == nil || in.cands == nil {
+		return nil
+	}
+	fd := in.cands[fn]
+	if fd == nil || fn.Type().(*types.Signature).Results().Len() != 1 {
+		return nil
+	}
+	local := func(e ast.Expr) bool {
+		id, ok := e.(*ast.Ident)
+		if !ok {
+			return false
+		}
+		if id.Name == "_" {
+			return true
+		}
+		obj := info.Defs[id]
+		if obj == nil {
+			obj = info.Uses[id]
+		}
+		return obj != nil && obj.Pos() >= fd.Pos() && obj.Pos() < fd.End()
+	}
+	pure := true
+	ast.Inspect(fd.Body, func(n ast.Node) bool {
+		switch x := n.(type) {
+		case *ast.AssignStmt:
+			for _, l := range x.Lhs {
+				if !local(l) {
+					pure = false
+				}
+			}
+		case *ast.IncDecStmt:
+			if !local(x.X) {
+				pure = false
+			}
+		case *ast.CallExpr:
+			if tv, has := info.Types[x.Fun]; has && tv.IsType() {
+				return true
+			}
+			if id, isId := x.Fun.(*ast.Ident); isId {
+				if b, isB := info.Uses[id].(*types.Builtin); isB {
+					switch b.Name() {
+					case "len", "cap", "min", "max":
+						return true
+					}
+				}
+			}
+			if in.isMinMax(x) != "" {
+				return true
+			}
+			pure = false
+		case *ast.UnaryExpr:
+			if x.Op == token.AND || x.Op == token.ARROW {
+				pure = false
+			}
+		case *ast.SendStmt, *ast.GoStmt, *ast.DeferStmt, *ast.FuncLit:
+			pure = false
+		case *ast.RangeStmt:
+			if x.Tok == token.ASSIGN {
+				if (x.Key != nil && !local(x.Key)) || (x.Value != nil && !local(x.Value)) {
+					pure = false
+				}
+			}
+		}
+		return true
+	})
+	if !pure {
+		return nil
+	}
+	return fd
+}
+
 func (in *inliner) noFuncLit(e ast.Expr) bool {
 	ok := true
 	ast.Inspect(e, func(n ast.Node) bool {
@@ -136,6 +219,26 @@ func (in *inliner) hoist(ep *ast.Expr) []ast.Stmt {
 			}
 			kind := in.isMinMax(x)
 			if kind == "" {
+				// a candidate helper without side effects, with pure operands: bind its result before the
+				// statement; the next round inlines the binding
+				if fd := in.pureCandidate(x); fd != nil {
+					okArgs := true
+					for _, a := range x.Args {
+						if !in.pure(a) {
+							okArgs = false
+						}
+					}
+					if sel, isSel := x.Fun.(*ast.SelectorExpr); isSel && !in.pure(sel.X) {
+						okArgs = false
+					}
+					if okArgs {
+						*in.serial++
+						name := fmt.Sprintf("h_x%d", *in.serial)
+						pre = append(pre, &ast.AssignStmt{Lhs: []ast.Expr{ast.NewIdent(name)}, Tok: token.DEFINE, Rhs: []ast.Expr{x}})
+						*ep = ast.NewIdent(name)
+						in.counts["pure helper call bound to a temporary"]++
+					}
+				}
 				return
 			}
 			allPure := true
@@ -299,6 +402,9 @@ func (in *inliner) expandFile(f *ast.File) bool {
 			case *ast.IfStmt:
 				if s.Init == nil {
 					pre = append(pre, in.hoist(&s.Cond)...)
+				} else if as, ok := s.Init.(*ast.AssignStmt); ok && len(as.Rhs) == 1 {
+					// if x := min(a, b); cond {…}: the init runs once, first
+					pre = append(pre, in.hoist(&as.Rhs[0])...)
 				}
 			case *ast.SwitchStmt:
 				if s.Init == nil && s.Tag != nil {
@@ -306,6 +412,28 @@ func (in *inliner) expandFile(f *ast.File) bool {
 				}
 			case *ast.RangeStmt:
 				pre = append(pre, in.hoist(&s.X)...)
+			case *ast.ForStmt:
+				// the init statement runs once, before anything else of the loop
+				if as, ok := s.Init.(*ast.AssignStmt); ok {
+					for i := range as.Rhs {
+						pure := true
+						ast.Inspect(as.Rhs[i], func(n ast.Node) bool {
+							if e, isE := n.(ast.Expr); isE && !in.pure(e) {
+								pure = false
+							}
+							return pure
+						})
+						// earlier right-hand sides are evaluated before: they must be pure as well
+						for k := 0; k < i; k++ {
+							if !in.pure(as.Rhs[k]) {
+								pure = false
+							}
+						}
+						if pure {
+							pre = append(pre, in.hoist(&as.Rhs[i])...)
+						}
+					}
+				}
 			}
 			if len(pre) > 0 {
 				changed = true
